@@ -89,6 +89,19 @@ func c04(args []string) {
 				emitJSON("FAIL", "", map[string]any{"kind": "burst-accepted", "why": why, "bytes": fmt.Sprintf("%x", b), "corrupted": fmt.Sprintf("%x", m)})
 			}
 		}
+		// a burst that brings the running checksum to zero just before the stored CRC: the last two message bytes overwritten with
+		// the checksum of what precedes them (a zero running value is an ordinary value, not "checksum off")
+		if region > 6 {
+			m := append([]byte(nil), b...)
+			c := crcOf(m[14 : len(m)-4])
+			m[len(m)-4], m[len(m)-3] = byte(c), byte(c>>8)
+			stat("oracle_zero_residue_bursts", 1)
+			if !bytes.Equal(m, b) {
+				if ok, why := rejected(m); !ok {
+					emitJSON("FAIL", "", map[string]any{"kind": "burst-accepted (running checksum brought to zero)", "why": why, "bytes": fmt.Sprintf("%x", b), "corrupted": fmt.Sprintf("%x", m)})
+				}
+			}
+		}
 		for k := 0; k < len(b); k++ { // every truncation length
 			stat("oracle_truncations", 1)
 			if ok, why := rejected(b[:k]); !ok {
